@@ -50,6 +50,9 @@ def run(ctx: Ctx, prop: str, only: set | None = None) -> int:
             static = {"has_line": "LINE" in m, "has_branch": "BRANCH" in m, "gt_njumps": g["njumps"],
                       "module_lines": g["module_lines"]}
             evs = []
+            if not r.get("ok") and r.get("timeout"):
+                ctx.drift.append(f"idiom {name} metrics={'+'.join(m)}: no answer within the time limit (machine load?), skipped")
+                continue
             if not r.get("ok"):
                 evs.append({"ok": False})
             else:
